@@ -74,6 +74,26 @@ Theorem C17_select : forall (choose : nat -> list Z -> Z -> list Z)
 Proof. exact selector_spec. Qed.
 Print Assumptions C17_select.
 
+(* the same through TemplateModel.save_spikes_subset_waveforms (n_chunks_kept = 20, chunk
+   restriction on, every template that has spikes requested, no subset): the saved spike ids are
+   strictly increasing, lie in kept chunks, and hold, for EVERY template id c, all its spikes in
+   kept chunks when they number at most max_n_spikes_per_template and exactly that many otherwise *)
+Theorem C17_route : forall (choose : nat -> list Z -> Z -> list Z)
+    (samples templates grid : list Z) (nst : Z),
+  (forall j ids m, NoDup ids -> 0 < m < zlen ids ->
+     NoDup (choose j ids m) /\ zlen (choose j ids m) = m /\ incl (choose j ids m) ids) ->
+  length samples = length templates -> sortedZ grid -> 1 <= zlen grid -> 1 <= nst ->
+  exists ivs r,
+    chunks_kept grid 20 = Some (flat ivs) /\
+    Kept_Stride grid 20 (stride (zlen grid - 1) 20) ivs /\
+    route choose samples templates grid nst = Some r /\
+    StronglySorted Z.lt r /\
+    (forall i, In i r -> exists c, Eligible samples templates ivs true None c i) /\
+    (forall c, Count_Spec (Some nst) (elig samples templates ivs true None c)
+                          (filter (has_cluster templates c) r)).
+Proof. exact route_spec. Qed.
+Print Assumptions C17_route.
+
 (* the list [elig c] used above is exactly the set of eligible spikes, in increasing order *)
 Theorem C17_eligible_meaning : forall (times clusters : list Z) (ivs : list iv) (sc : bool)
     (sub : option (list Z)) (c : Z),
